@@ -187,6 +187,20 @@ def sh_push(S):
     S.data(psid, b"pushed", fin=True)
 
 
+def sh_push_body_trailers(S):
+    # the pushed response has everything a request stream can have: two DATA frames and trailers
+    # (push streams enter the frame parser by a different route: bytes are buffered by the
+    # unidirectional-stream handler first)
+    S.prime()
+    sid, h = _open(S)
+    psid = S.push(sid, PUSHREQ)
+    S.headers(sid, h, fin=True)
+    S.headers(psid, RESP)
+    S.data(psid, b"push")
+    S.data(psid, b"ed!")
+    S.headers(psid, TRAILERS, fin=True)
+
+
 def sh_push_after_body(S):
     S.prime()
     sid, h = _open(S)
@@ -488,6 +502,7 @@ SHAPES = [
     Shape(sh_two_messages, "two_messages", quick=False),
     Shape(sh_informational, "interim_then_final_response", roles=("server",)),
     Shape(sh_push, "push_promise_and_push_stream", roles=("server",)),
+    Shape(sh_push_body_trailers, "push_stream_body_and_trailers", roles=("server",)),
     Shape(sh_push_after_body, "push_promise_and_push_stream", roles=("server",), quick=False),
     Shape(sh_push_promise_last, "push_promise_last_frame", roles=("server",), quick=False),
     Shape(sh_dyn, "dynamic_table", pair=True),
